@@ -1,5 +1,5 @@
 //! slicec-bounded <check>   -- prints one JSON object per counterexample (at most 5) and a summary.
-//! checks: plugin (C19)  preproc (C06)  decode (C11)  totals (C07)  visitor (C20)  fileset (C17)  lexical (C01)  snippet (C09)  lints (C13)  spans (C09)
+//! checks: plugin (C19)  preproc (C06)  decode (C11)  totals (C07)  visitor (C20)  fileset (C17)  lexical (C01)  snippet (C09)  lints (C13)  spans (C09)  request (C08)
 use std::collections::{BTreeMap, HashMap, HashSet};
 
 mod oracle_fileset;
@@ -7,6 +7,13 @@ mod oracle_lexical;
 mod oracle_lints;
 mod oracle_plugin;
 mod oracle_preproc;
+mod oracle_request;
+#[path = "@REPO@/slicec/src/definition_types.rs"]
+#[allow(dead_code, unused)]
+mod definition_types;
+#[path = "@REPO@/slicec/src/slice_file_converter.rs"]
+#[allow(dead_code, unused)]
+mod slice_file_converter;
 mod oracle_snippet;
 mod oracle_spans;
 mod oracle_visitor;
@@ -99,9 +106,10 @@ fn main() {
         "snippet" => oracle_snippet::run(),
         "lints" => oracle_lints::run(),
         "spans" => oracle_spans::run(),
+        "request" => oracle_request::run(),
         "one" => oracle_lexical::one(&std::env::args().nth(2).unwrap_or_default()),
         _ => {
-            eprintln!("usage: slicec-bounded plugin|preproc|decode|totals|visitor|fileset|lexical|snippet|lints|spans");
+            eprintln!("usage: slicec-bounded plugin|preproc|decode|totals|visitor|fileset|lexical|snippet|lints|spans|request");
             2
         }
     };
